@@ -552,7 +552,11 @@ class C09(Check):
                         gj = [i for i, (_, nd) in enumerate(im.wn.nodes()) if nd._is_isolated]
                         gl = [j for j, (_, l) in enumerate(im.wn.links()) if l._is_isolated]
                         ever_iso = ever_iso or bool(ej)
-                        if gj != ej or gl != el:
+                        closed = [j for j in range(len(net["links"])) if im.wn.get_link("L%d" % j).status == wntr.network.LinkStatus.Closed]
+                        # the statement: cut-off junctions and their links are zeroed, nothing connected is.  A stale flag on a
+                        # CLOSED link is unobservable (flow 0 either way): that is left to the model comparison, not judged here.
+                        link_bad = [j for j in el if j not in gl] + [j for j in gl if j not in el and j not in closed]
+                        if gj != ej or link_bad:
                             failures.append(Failure(
                                 "flags-vs-reachability" + ("-parallel" if self._has_parallel(net) else ""),
                                 "after _update_internal_graph + _get_isolated_junctions_and_links the flagged junctions %s / links %s "
